@@ -277,7 +277,7 @@ def _dump_str(s, rng):
         r = rng.random() if rng is not None else 1.0
         if ch in _SHORT and r > 0.2:
             out.append(_SHORT[ch])
-        elif ch in _SHORT or cp < 0x20 or r < 0.15:
+        elif ch in _SHORT or cp < 0x20 or r < 0.15 or 0xD800 <= cp <= 0xDFFF:
             if cp > 0xFFFF:
                 v = cp - 0x10000
                 hi, lo = 0xD800 + (v >> 10), 0xDC00 + (v & 0x3FF)
@@ -533,6 +533,7 @@ class MediaModel:
       ('malformed',)        every call raises one and the same MediaMalformedError instance,
                             default or not
       ('unsupported',)      no handler: every call raises a 415 error, nothing is ever read
+      ('settled'[, pred])   first access may fail for a non-parse reason; later accesses: one object or that error
       ('consistent',)       outcome left open (odd framing): one value object or one error instance, ever after
       ('error',)            the attempt failed with any other exception (I/O error while reading, custom
                             handler error): every call raises one and the same exception instance
@@ -544,6 +545,8 @@ class MediaModel:
         self.obj = None
         self.err = None
         self.n = 0
+        self.first = None
+        self.later = None
 
     def step(self, op, default, kind, payload, touched):
         """op: 'get'|'media'|'default'; kind/payload: ('ret', obj) | ('exc', exception).
@@ -608,6 +611,43 @@ class MediaModel:
                 self.obj = (payload,)
             elif self.obj[0] is not payload:
                 bad.append(('not-same-object', 'call #%d returned a different object than the first call' % self.n))
+        elif o == 'settled':
+            # the first access may fail for a reason that is not the parse (e.g. an I/O error while the rest of
+            # the body is drained after a successful parse). Whatever it did, the accesses after it are settled:
+            # one and the same object, or the first access' own error instance - never a fresh attempt.
+            if self.n == 1:
+                self.first = (kind, payload)
+                if kind == 'ret' and len(self.outcome) > 1 and not self.outcome[1](payload):
+                    bad.append(('wrong-document', 'parsed value differs from the expected document'))
+            else:
+                fk, fp = self.first
+                if kind == 'ret':
+                    if op == 'default' and payload is default and type(fp).__name__ == 'MediaNotFoundError' \
+                            and fk == 'exc':
+                        pass
+                    elif fk == 'ret' and fp is not payload:
+                        bad.append(('not-same-object',
+                                    'call #%d returned a different object than the first call' % self.n))
+                    elif self.later is not None and (self.later[0] != 'ret' or self.later[1] is not payload):
+                        bad.append(('not-settled', 'call #%d returned %r, an earlier later-call did %s %r'
+                                    % (self.n, payload, self.later[0], self.later[1])))
+                    else:
+                        if self.later is None and fk == 'exc' and len(self.outcome) > 1 \
+                                and not self.outcome[1](payload):
+                            bad.append(('wrong-document', 'parsed value differs from the expected document'))
+                        self.later = ('ret', payload)
+                else:
+                    if fk == 'ret':
+                        bad.append(('value-then-error', 'call #%d raised %r after the first call returned a value'
+                                    % (self.n, payload)))
+                    elif payload is not fp:
+                        bad.append(('not-same-error', 'call #%d raised a different exception instance (%r vs %r)'
+                                    % (self.n, payload, fp)))
+                    elif self.later is not None and self.later[0] != 'exc':
+                        bad.append(('not-settled', 'call #%d raised %r after a later call returned %r'
+                                    % (self.n, payload, self.later[1])))
+                    else:
+                        self.later = ('exc', payload)
         elif o == 'unsupported':
             if touched:
                 bad.append(('stream-touched-without-handler',
